@@ -156,8 +156,47 @@ def cubics_on_arc(x1, y1, rx, ry, rot, fa, fs, x2, y2, segs):
         return ('sweeps in the direction and through the extent selected by the flags', dth, swept)
     return None
 
+def judge_path_arc(x, y, rel, a):
+    """the path-level callback: `M x,y a|A rx ry rot fa fs ex,ey` through SVGPath.arcs_to_cubics(); a = [rx, ry, rot, fa, fs, ex, ey]"""
+    from picosvg.svg_types import SVGPath
+    import pathsem
+    rx, ry, rot, fa, fs, ex, ey = a
+    d = f"M{x},{y} {'a' if rel else 'A'}{rx} {ry} {rot} {fa} {fs} {ex},{ey}"
+    try: out = pathsem.parse_simple(SVGPath(d=d).arcs_to_cubics().d)
+    except Exception as e: return ('raises', 'a path', repr(e))
+    end = (x + ex, y + ey) if rel else (ex, ey)
+    law = 'arcs_to_cubics replaces an arc command by cubics from the current point to the arc end point'
+    if not out or out[0][0] != 'M' or tuple(out[0][1]) != (x, y): return (law, 'the moveto kept', out[:1])
+    body = out[1:]
+    if end == (x, y):
+        return None if not body else ('coincident endpoints give no segment', [], body)
+    if rx == 0 or ry == 0:
+        ok = len(body) == 1 and body[0][0] == 'L' and tuple(body[0][1]) == end
+        return None if ok else ('zero radius gives one straight line to the end point', end, body)
+    if not body or any(c != 'C' for c, _ in body): return (law, 'cubic segments', body)
+    segs = [((v[0], v[1]), (v[2], v[3]), (v[4], v[5])) for _, v in body]
+    if tuple(segs[-1][2]) != end: return ('last segment ends exactly at the arc end point', end, tuple(segs[-1][2]))
+    return cubics_on_arc(float(x), float(y), float(rx), float(ry), float(rot), fa, fs, float(end[0]), float(end[1]), segs)
+
+def path_arc_cases(rng, n):
+    out = []
+    vals = [0.0, 1.0, 5.0, -3.0, 2.5, 10.0]
+    for k in range(n):
+        x, y = rng.choice(vals), rng.choice(vals)
+        rx, ry = rng.choice([5.0, 6.0, 2.0, 0.0, -4.0, 12.0]), rng.choice([5.0, 3.0, 6.0, 12.0])
+        ex, ey = rng.choice(vals), rng.choice(vals)
+        if k % 4 == 0: ex, ey = x, y                     # a relative offset that repeats the current position; an absolute arc back to it
+        out.append((x, y, k % 2 == 0, [rx, ry, rng.choice([0.0, 30.0, -75.0]), rng.randint(0, 1), rng.randint(0, 1), ex, ey]))
+    return out
+
 def search(ctx, broken, disagreements):
     found, n = [], 0
+    for (x, y, rel, a) in path_arc_cases(ctx.rng, ctx.n(400, 5000)):
+        n += 1
+        v = judge_path_arc(x, y, rel, a)
+        if v and not any(f['law'] == v[0] for f in found):
+            found.append({'law': v[0], 'input': {'path_arc': [x, y, rel, a]}, 'expected_by_spec': jsonable(v[1]) if not isinstance(v[1], (float, str)) else v[1],
+                          'observed': jsonable(v[2]) if not isinstance(v[2], (float, str)) else v[2]})
     cands = []
     for d in disagreements:
         try: cands.append(unjson(d['input'])[1])
@@ -183,6 +222,7 @@ def search(ctx, broken, disagreements):
 
 def matches_known(v, entry):
     sig = entry.get('signature', {})
+    if 'arc' not in v['input']: return False
     a = unjson(v['input']['arc'])
     if sig.get('pattern') == 'negative_radius_product':
         return (a[1] * a[2] < 0)
@@ -192,6 +232,10 @@ def matches_known(v, entry):
     return False
 
 def replay(ctx, w):
+    if 'path_arc' in w:
+        x, y, rel, a = w['path_arc']
+        v = judge_path_arc(x, y, rel, a)
+        return {'fails': v is not None, 'detail': jsonable(v) if v else None}
     a = unjson(w['arc'])
     v = judge_arc(a)
     return {'fails': v is not None, 'detail': v, 'impl': impl_arc(a)}
